@@ -136,6 +136,14 @@ func Flatten(opts FlattenOpts) error {
 		return err
 	}
 
+	// At this stage, all remaining $ref's are local to the document: check that they do resolve.
+	//
+	// Schema $ref's are skipped when expanding in step 1 (unless a full expansion is required),
+	// so that a dangling local $ref would otherwise go unnoticed.
+	if err := checkLocalRefs(&opts); err != nil {
+		return err
+	}
+
 	// 5. full flattening: rewrite inline schemas (schemas that aren't simple types or arrays or maps)
 	if !opts.Minimal && !opts.Expand {
 		if err := nameInlinedSchemas(&opts); err != nil {
@@ -230,6 +238,25 @@ func importReferences(opts *FlattenOpts) error {
 }
 
 // nameInlinedSchemas replaces every complex inline construct by a named definition.
+// checkLocalRefs verifies that all local $ref's resolve against the document.
+func checkLocalRefs(opts *FlattenOpts) error {
+	if opts.ContinueOnError {
+		return nil
+	}
+
+	for key, ref := range opts.Spec.references.allRefs {
+		if !ref.HasFragmentOnly {
+			continue
+		}
+
+		if _, _, err := ref.GetPointer().Get(opts.Swagger()); err != nil {
+			return ErrAtKey(key, ErrResolveSchema(err))
+		}
+	}
+
+	return nil
+}
+
 func nameInlinedSchemas(opts *FlattenOpts) error {
 	debugLog("nameInlinedSchemas")
 
